@@ -59,17 +59,18 @@ GRID = {
     "DistBeta": [[PFv(0.5), PFv(0.5)], [PFv(1.0), PFv(1.0)], [PFv(2.0), PFv(3.0)], [PFv(0.7), PFv(2.5)], [PFv(5.0), PFv(0.3)],
                  [PIv(2), PIv(2)]],
     "DistBinomial": [[PIv(1), PFv(0.5)], [PIv(5), PFv(0.3)], [PIv(12), PFv(0.0)], [PIv(8), PFv(1.0)], [PIv(30), PFv(0.73)],
-                     [PIv(1100), PFv(0.5)], [PIv(1100), PFv(0.0)]],      # comb(n, k) beyond the float range
+                     [PIv(1100), PFv(0.5)], [PIv(1100), PFv(0.0)], [PIv(1200), PFv(0.35)]],      # comb(n, k) beyond the float range
     "DistConstant": [[PFv(2.0)], [PIv(3)]],
     "DistDiscreteUniform": [[PIv(1), PIv(6)], [PIv(-3), PIv(2)], [PIv(0), PIv(1)]],
     "DistErlang": [[PFv(2.0), PIv(1)], [PFv(0.5), PIv(3)], [PFv(1.5), PIv(9)], [PFv(2.0), PIv(10)], [PFv(0.7), PIv(15)],
-                   [PIv(2), PIv(4)], [PFv(0.5), PIv(120)], [PFv(1.0), PIv(200)]],               # (lambda x)**(k-1), (k-1)! beyond the float range
+                   [PIv(2), PIv(4)], [PFv(0.5), PIv(120)], [PFv(1.0), PIv(200)], [PFv(3.0), PIv(400)]],               # (lambda x)**(k-1), (k-1)! beyond the float range
     "DistExponential": [[PFv(0.5)], [PFv(2.0)], [PIv(3)]],
     "DistGamma": [[PFv(0.5), PFv(2.0)], [PFv(1.0), PFv(2.0)], [PIv(1), PIv(1)], [PFv(2.5), PFv(0.7)], [PFv(10.0), PFv(3.0)],
                   [PFv(0.999), PFv(1.0)], [PFv(1.001), PFv(1.0)]],
     "DistGeometric": [[PFv(0.5)], [PFv(0.05)], [PFv(0.95)], [PFv(0.001)]],
     "DistLogNormal": [[PFv(0.0), PFv(1.0)], [PFv(1.5), PFv(0.25)], [PFv(-1.0), PFv(2.0)], [PIv(0), PIv(1)]],
-    "DistNegBinomial": [[PIv(1), PFv(0.5)], [PIv(3), PFv(0.3)], [PIv(6), PFv(0.8)], [PIv(600), PFv(0.5)]],
+    "DistNegBinomial": [[PIv(1), PFv(0.5)], [PIv(3), PFv(0.3)], [PIv(6), PFv(0.8)], [PIv(600), PFv(0.5)],
+                        [PIv(600), PFv(0.4)]],       # comb(s+k-1, k) beyond the float range at the mode, p != 1/2
     "DistNormal": [[PFv(0.0), PFv(1.0)], [PFv(5.0), PFv(2.0)], [PFv(-3.0), PFv(0.5)], [PIv(1), PIv(2)]],
     "DistNormalTrunc": [[PFv(0.0), PFv(1.0), PFv(-1.0), PFv(2.0)], [PFv(0.0), PFv(1.0), PFv(0.0), PFv(INF)],
                         [PFv(0.0), PFv(1.0), PFv(-INF), PFv(1.0)], [PFv(10.0), PFv(2.0), PFv(9.0), PFv(14.0)],
